@@ -232,16 +232,23 @@ Proof. vm_compute. repeat split; reflexivity. Qed.
      re-read from the source on every run, are exactly the reviewed ones (a new site breaks this).
    - C19_error_text_shows_position: the error carries the given file name, and its text starts with
      "template <file>:<line>:<col>: " for the very line and column it carries (file names without %).
-   - C19_scan_prefix_determinism / C19_valid_scan_transfers: prefix determinism of the scanner -- two
-     inputs with a common prefix pass through the same configurations as long as the cursor stays 24
-     bytes before the end of the common prefix (all fifteen state functions).
+   - C19_scan_prefix_determinism(_per_state) / C19_valid_scan_transfers(_per_state): prefix determinism
+     of the scanner -- two inputs with a common prefix pass through the same configurations as long as
+     every step ends [margin st] bytes before the end of the common prefix, st the state function that
+     ran (all fifteen): 4 for the tag delimiters and lexBeginTag, 8 for text, the inside of a tag,
+     strings, comments, identifiers and numbers, 12 for css and literal blocks, 16 for soydoc, 24 for a
+     header @param (the uniform margin of 24 bytes is kept as a corollary).
+   - C19_parse_error_position_all: the composed statement for EVERY byte string, without hypotheses on
+     the item list (floats_ok) or the nested scanner (lexq_wf): the scanner model is its own nested
+     scanner (wt-parser's soy_file_total_all / nested_scanner_at_base).
    Still partial -- C19_fault_line_partial: the exact-line statements for an injected stray brace /
-   illegal character are derived from the scan of the VALID file only under that margin (at least 24
-   bytes of plain text / white space between the configuration the valid scan reaches and the fault). *)
+   illegal character are derived from the scan of the VALID file under the per-state margins; the
+   end-of-input classes (unterminated soydoc / comment / string / tag) are on the last line; see the
+   comment there for what is missing. *)
 From Soy Require Import Model.Utf8 Model.Token Model.Lexer Model.RawText Model.ExprParser Model.Parser
   Proofs.ErrTokProofs Proofs.ParseErrBound Proofs.LexErrPos Proofs.LexEofPos Proofs.ParseEndToEnd
   Spec.ErrText Proofs.LexTokens Proofs.LexFinalPos Proofs.ErrPosWindow Proofs.ErrPosWindowCmd Proofs.ErrPosFinal
-  Proofs.ErrPosReach Proofs.ErrPosSites Proofs.ErrPosText Proofs.LexPrefixStates Proofs.LexPrefixMain Proofs.ErrPosPrefix.
+  Proofs.ErrPosReach Proofs.ErrPosSites Proofs.ErrPosText Proofs.LexPrefixStates Proofs.LexPrefixMain Proofs.ErrPosPrefix Proofs.ErrPosCompose.
 Open Scope N_scope.
 
 (* every error of the model of parse.SoyFile, on the items of the scanner model, for every input *)
@@ -340,24 +347,71 @@ Theorem C19_valid_scan_transfers :
 Proof. exact valid_scan_transfers. Qed.
 Print Assumptions C19_valid_scan_transfers.
 
+(* the same with the look-ahead of each state function instead of the uniform 24 bytes: every step ends
+   [margin st] bytes before the end of the common prefix, st the state function that ran *)
+Theorem C19_state_margins :
+  margin LText = 8%Z /\ margin LLeftDelim = 4%Z /\ margin LRightDelim = 4%Z /\ margin LRightDelimEnd = 4%Z /\
+  margin LBeginTag = 4%Z /\ margin LInsideTag = 8%Z /\ margin LSoyDoc = 16%Z /\ margin LLineComment = 8%Z /\
+  margin LBlockComment = 8%Z /\ (forall q, margin (LString q) = 8%Z) /\ margin LIdent = 8%Z /\
+  margin LHeaderParam = 24%Z /\ margin LCss = 12%Z /\ margin LLiteral = 12%Z /\ margin LNumber = 8%Z /\
+  forall st, (0 <= margin st <= M)%Z.
+Proof. repeat split; try reflexivity; try (intros; reflexivity); apply margin_le_M. Qed.
+Print Assumptions C19_state_margins.
+
+Theorem C19_scan_prefix_determinism_per_state :
+  forall ul ud pre r1 r2 base k st l st' l',
+    psteps ul ud base (pre ++ r1) k st l = Ok (st', l') ->
+    (forall j, (j <= k)%nat -> forall stj lj, psteps ul ud base (pre ++ r1) j st l = Ok (stj, lj) ->
+       stj <> LDone /\ (l_start lj <= l_pos lj)%Z) ->
+    (forall j, (j < k)%nat -> forall stj lj stn ln,
+       psteps ul ud base (pre ++ r1) j st l = Ok (stj, lj) -> psteps ul ud base (pre ++ r1) (S j) st l = Ok (stn, ln) ->
+       (l_pos ln + margin stj <= Z.of_nat (length pre))%Z) ->
+    psteps ul ud base (pre ++ r2) k st l = Ok (st', l').
+Proof. exact steps_det_m. Qed.
+Print Assumptions C19_scan_prefix_determinism_per_state.
+
+Theorem C19_valid_scan_transfers_per_state :
+  forall ul ud, ul (-1)%Z = false -> ud (-1)%Z = false ->
+  forall pre r1 r2 k st l,
+    steps ul ud (pre ++ r1) 0 k LText lex_init = Ok (st, l) -> st <> LDone ->
+    within_margins ul ud pre (pre ++ r1) k ->
+    steps ul ud (pre ++ r2) 0 k LText lex_init = Ok (st, l).
+Proof. exact valid_scan_transfers_m. Qed.
+Print Assumptions C19_valid_scan_transfers_per_state.
+
 (* PARTIAL.  Full statement (DESIGN: stray_brace_line, illegal_char_line "for every valid prefix"):
-     for every VALID file v, every line L of it and every injection of the fault on L, the error of the
-     faulted file is reported on line L.
-   Proved (1), from the scan of the valid file: v = pre ++ r1 any file whose scan reaches, after k steps
-   that keep the cursor M = 24 bytes before |pre|, the text state
-   (the inside of a tag); f = pre ++ r2 any file with the same first |pre| bytes in which plain text and a
-   closing brace (white space and an illegal character) follow that cursor: the items of f are the items
-   the valid scan had sent followed by the error item just after the offending character, whose line is
-   1 + the line feeds before that character.  Proved (2), without the margin: the same from every
-   configuration the scan of f itself reaches.  Missing for the full statement: the margin (a fault
-   closer than 24 bytes to the last tag boundary before it) and the other fault
-   classes (covered by C19_parse_error_position as to WHICH item is reported, not as to its line). *)
+     for every VALID file v, every line L of it and every injection of a fault on L, the error of the
+     faulted file is reported on line L (lexical faults, unknown command) or between L and the last line
+     (unterminated constructs).
+   Proved (1, 2), from the scan of the valid file: v = pre ++ r1 any file whose scan reaches, after k steps
+   each of which ends [margin st] bytes before |pre| (within_margins: st the state function that ran; 4 after a
+   tag delimiter, 8 after text / an identifier / a number / a string / a step inside the tag, ... instead of the
+   uniform 24), the text state (the inside of a tag); f = pre ++ r2 any file with the same first |pre| bytes in
+   which plain text and a closing brace (white space and an illegal character) follow that cursor: the items of
+   f are the items the valid scan had sent followed by the error item just after the offending character, whose
+   line is 1 + the line feeds before that character.  Proved (3, 4), without any margin: the same from every
+   configuration the scan of f itself reaches.  Proved (5), the classes reported at the end of the input
+   (unterminated soydoc / block comment / string / tag): whenever the scan of f = pre ++ r2 ends in an error item
+   of these classes, the scan of f passes through every configuration the valid scan reaches within the margins,
+   the error item is the last item, stands at |f|, and its line is the LAST line of f, not before the line of any
+   position of f (of the place where the construct was opened).
+   Missing for the full statement: (a) lexical faults closer to the configuration the valid scan reaches than
+   the margin of the state function before it (4 to 8 bytes after an ordinary tag; the model's [next] decodes up
+   to four bytes, so one rune of look-ahead costs 4); (b) that an unterminated construct does END the scan in an
+   error item of its class: proved from the text of the fault for a block comment (C19_unterminated_comment_line
+   below: ASCII without star-slash after the opening), for strings, tags and soydoc only per scanning loop
+   (C19_string_error_at_end, C19_unclosed_tag_at_end, C19_scan_final_item) under the hypothesis that the loop ends
+   the scan;
+   (c) the parser-level classes (unknown command, end of input inside a template, fault inside a quoted
+   attribute expression): C19_parse_error_position_all says WHICH item is reported (last or last-but-one
+   received), C19_print_trailing_token_reported covers {foo $x}; their exact line is not derived from the valid
+   prefix; (d) that the parser, handed the scanner's error item, reports it rather than an earlier item
+   (C19_text_or_tag_error_item covers textOrTag, the site every injected lexical fault of the harness reaches). *)
 Theorem C19_fault_line_partial :
   forall ul ud, ul (-1)%Z = false -> ud (-1)%Z = false ->
   (forall pre r1 r2 k l txt rest fuel,
      steps ul ud (pre ++ r1) 0 k LText lex_init = Ok (LText, l) ->
-     (forall j stj lj, (j <= k)%nat -> steps ul ud (pre ++ r1) 0 j LText lex_init = Ok (stj, lj) ->
-        before_margin pre lj) ->
+     within_margins ul ud pre (pre ++ r1) k ->
      drop (Z.to_nat (l_pos l)) (pre ++ r2) = txt ++ 125 :: rest -> Forall plain txt ->
      let f := pre ++ r2 in
      let e := err_item (l_pos l + Z.of_nat (length txt) + 1) e_close_brace in
@@ -366,8 +420,7 @@ Theorem C19_fault_line_partial :
   /\
   (forall pre r1 r2 k l ws c rest fuel,
      steps ul ud (pre ++ r1) 0 k LText lex_init = Ok (LInsideTag, l) ->
-     (forall j stj lj, (j <= k)%nat -> steps ul ud (pre ++ r1) 0 j LText lex_init = Ok (stj, lj) ->
-        before_margin pre lj) ->
+     within_margins ul ud pre (pre ++ r1) k ->
      drop (Z.to_nat (l_pos l)) (pre ++ r2) = ws ++ c :: rest -> Forall space_byte ws -> c < 128 ->
      reaches_default (Z.of_N c) = true -> c <> 10 ->
      let f := pre ++ r2 in
@@ -388,15 +441,58 @@ Theorem C19_fault_line_partial :
      reaches_default (Z.of_N c) = true -> c <> 10 ->
      let e := err_item (l_pos l + Z.of_nat (length ws) + 1) e_bad_char in
      lex_items ul ud (k + (length ws + S fuel)) false s = Ok (rev (l_out l) ++ [e]) /\
-     line_at s (t_pos e) = 1 + count_nl (take (Z.to_nat (l_pos l)) s ++ ws)).
+     line_at s (t_pos e) = 1 + count_nl (take (Z.to_nat (l_pos l)) s ++ ws))
+  /\
+  (forall pre r1 r2 k st l fuel ts e,
+     steps ul ud (pre ++ r1) 0 k LText lex_init = Ok (st, l) -> st <> LDone ->
+     within_margins ul ud pre (pre ++ r1) k ->
+     let f := pre ++ r2 in
+     lex_items ul ud fuel false f = Ok (ts ++ [e]) -> t_typ e = itemError -> eof_class (t_val e) = true ->
+     steps ul ud f 0 k LText lex_init = Ok (st, l) /\
+     t_pos e = N.of_nat (length f) /\ line_at f (t_pos e) = lines f /\
+     (forall opened, opened <= N.of_nat (length f) -> line_at f opened <= line_at f (t_pos e))).
 Proof.
-  intros ul ud Hl Hd. split; [|split; [|split]].
-  - intros. eapply (stray_brace_after_valid_prefix ul ud Hl Hd pre r1 r2); eassumption.
-  - intros. eapply (illegal_char_after_valid_prefix ul ud Hl Hd pre r1 r2); eassumption.
+  intros ul ud Hl Hd. split; [|split; [|split; [|split]]].
+  - intros. eapply (stray_brace_after_valid_prefix_m ul ud Hl Hd pre r1 r2); eassumption.
+  - intros. eapply (illegal_char_after_valid_prefix_m ul ud Hl Hd pre r1 r2); eassumption.
   - intros. eapply stray_brace_reached; eassumption.
   - intros. eapply illegal_char_reached; eassumption.
+  - intros. eapply (eof_fault_after_valid_prefix ul ud Hl Hd pre r1 r2); eassumption.
 Qed.
 Print Assumptions C19_fault_line_partial.
+
+(* an unterminated block comment, from the TEXT of the fault (item (b) of the list above, for this class): from
+   whatever configuration in the block-comment state the scan of the faulted file s itself reaches -- the cursor
+   stands after the opening slash-star, at any offset, no margin -- if only ASCII without a closing star-slash
+   follows, the items of s are the items sent so far and the error item `unclosed comment` at the end of the input;
+   its line is the last line of s, not before the line of any position of s *)
+From Soy Require Import Proofs.ErrPosUnterminated.
+Open Scope N_scope.
+Theorem C19_unterminated_comment_line :
+  forall ul ud s k l body fuel,
+    steps ul ud s 0 k LText lex_init = Ok (LBlockComment, l) -> (0 <= l_pos l <= Z.of_nat (length s))%Z ->
+    drop (Z.to_nat (l_pos l)) s = body -> Forall c19_ascii body -> c19_no_close false body ->
+    let e := err_item (Z.of_nat (length s)) e_comment_eof in
+    lex_items ul ud (k + S fuel) false s = Ok (rev (l_out l) ++ [e]) /\
+    t_pos e = N.of_nat (length s) /\ line_at s (t_pos e) = lines s /\
+    (forall opened, (opened <= N.of_nat (length s))%N -> (line_at s opened <= line_at s (t_pos e))%N).
+Proof. exact c19_unterminated_comment_reached. Qed.
+Print Assumptions C19_unterminated_comment_line.
+
+Definition ex_open_comment : bstr := Eval vm_compute in b "a /* b
+c
+".
+Example C19_unterminated_comment_nonvacuous :
+  let nl := fun _ : Z => false in
+  exists l, steps nl nl ex_open_comment 0 1 LText lex_init = Ok (LBlockComment, l) /\ l_pos l = 4%Z /\
+    Forall c19_ascii (drop 4 ex_open_comment) /\ c19_no_close false (drop 4 ex_open_comment) /\
+    lex_items nl nl 5 false ex_open_comment = Ok (rev (l_out l) ++ [err_item 9 e_comment_eof]) /\
+    line_at ex_open_comment 9%N = 3%N /\ lines ex_open_comment = 3%N.
+Proof.
+  cbv zeta. eexists. split; [vm_compute; reflexivity|]. split; [reflexivity|].
+  split; [vm_compute; repeat constructor|]. split; [vm_compute; intuition discriminate|].
+  vm_compute. repeat split; reflexivity.
+Qed.
 
 (* the earlier, weaker form (kept: it holds of the parser model for ANY expression parser, scanner of
    quoted expressions and strconv.Unquote handed to it) *)
@@ -409,21 +505,45 @@ Proof.
 Qed.
 Print Assumptions C19_parse_error_inside.
 
-(* totality on bytes (Proofs/ParseCompose.v, wt-parser): for EVERY byte string the scan returns items and the model of
-   parse.SoyFile on them returns a tree or a positioned error -- never the slice panic of lineNumber, never out of fuel *)
-From Soy Require Import Proofs.ParserProofs Proofs.LexParseBridge Proofs.ParseCompose.
+(* totality on bytes (wt-parser's Proofs/LexParseBridge.v soy_file_total_all, Proofs/LexShift.v nested_scanner_at_base;
+   composed in Proofs/ErrPosCompose.v): for EVERY byte string -- no hypothesis on the item list (floats_ok) or on the
+   nested scanner (lexq_wf): the scanner model is its own nested scanner -- the scan returns items and the model of
+   parse.SoyFile on them returns a tree or a positioned error, never the slice panic of lineNumber, never out of fuel;
+   the error's token is the last or last-but-one item received from the file's scanner (with everything known of a
+   scanned item), or from the scan that the scanner model started at base (lexExprAt) makes of a quoted expression *)
+From Soy Require Import Proofs.ParserProofs Proofs.LexParseBridge Model.ParseBytes.
 Open Scope N_scope.
+Theorem C19_parse_error_position_all :
+  forall ul ud, ul (-1)%Z = false -> ud (-1)%Z = false ->
+  forall unq s,
+    exists ts, lex_items ul ud (lex_budget s) false s = Ok ts /\
+      let out := soy_file (N.of_nat (length s)) (lexq_model ul ud) unq ts in
+      match po_result out with
+      | POk _ _ => True
+      | PErr t c st =>
+          (is_prefix e_quoted c = false -> t_pos t <= N.of_nat (length s)) /\
+          1 <= line_at s (t_pos t) <= lines s /\
+          ((werr ts t st /\ item_facts ul ud s ts t) \/ c19_quoted_at ul ud (N.of_nat (length s)) t c (po_scans out))
+      | PCrash _ | PFuel => False
+      end.
+Proof. exact c19_parse_error_position_all. Qed.
+Print Assumptions C19_parse_error_position_all.
+
 Theorem C19_parse_never_crashes :
   forall ul ud, ul (-1)%Z = false -> ud (-1)%Z = false ->
-  forall lexq unq, lexq_wf lexq -> forall s,
+  forall unq s,
     exists ts, lex_items ul ud (lex_budget s) false s = Ok ts /\
-      (floats_ok ts ->
-       match po_result (soy_file (N.of_nat (length s)) lexq unq ts) with
-       | POk _ _ => True
-       | PErr t c _ => (is_prefix e_quoted c = false -> t_pos t <= N.of_nat (length s)) /\ 1 <= line_at s (t_pos t) <= lines s
-       | PCrash _ | PFuel => False
-       end).
-Proof. exact parse_error_position_composed. Qed.
+      match po_result (soy_file (N.of_nat (length s)) (lexq_model ul ud) unq ts) with
+      | POk _ _ => True
+      | PErr t c _ => (is_prefix e_quoted c = false -> t_pos t <= N.of_nat (length s)) /\ 1 <= line_at s (t_pos t) <= lines s
+      | PCrash _ | PFuel => False
+      end.
+Proof.
+  intros ul ud Hl Hd unq s. destruct (c19_parse_error_position_all ul ud Hl Hd unq s) as (ts & Hlex & H).
+  exists ts. split; [exact Hlex|]. cbv zeta in H.
+  destruct (po_result (soy_file (N.of_nat (length s)) (lexq_model ul ud) unq ts)); try exact H.
+  destruct H as (H1 & H2 & _). split; assumption.
+Qed.
 Print Assumptions C19_parse_never_crashes.
 
 Theorem C19_line_at_monotone : forall src p q, p <= q -> line_at src p <= line_at src q.
